@@ -10,7 +10,7 @@
 (*  poldep            delays depend on transition polarity                 *)
 (*  inw[i][p]         input image of interface element i in lane p         *)
 (*  waves[x][p]       image of line x (empty sequence when not observed)   *)
-(*  port[i][p], s[i][p] = <<s3, s4, s5, s6, s7, s10>>, T capture time      *)
+(*  port[i][p], s[i][p] = <<s3, s4, s5, s6, s7, s10>>, T2 = 2 x capture time *)
 (*  caps[x], pcaps[i] capacities of the line / port slots                  *)
 (*  has               which optional observations are present              *)
 (*  sh, sc            [d|f, waves, port] : runs with shifted / scaled input *)
@@ -100,7 +100,7 @@ Abstracts8 == (Ok /\ R.has.c05 => \A i \in 1..NS : Caps(i) =>
 CaptureFaithful == (Ok /\ R.has.c13 => \A i \in 1..NS : (Caps(i) /\ WellFormed(PortW(i))) =>
                       LET w == PortW(i) IN
                       /\ SV(i)[1] = InitVal(w) /\ SV(i)[2] = Earliest(w) /\ SV(i)[3] = Latest(w) /\ SV(i)[4] = FinalVal(w)
-                      /\ SV(i)[5] = ValueBefore(w, R.T)
+                      /\ SV(i)[5] = (Cardinality({k \in 1..NEntries(w) : 2 * w[k] < R.T2})) % 2      \* value just before T (T2 = 2 T: T may lie between grid points)
                       /\ SV(i)[6] = (IF Overflowed(w) THEN 1 ELSE 0)) \/ Fail("C13", "CaptureFaithful")
 OvlClearMeansExact == (Ok /\ R.has.big => \A i \in 1..NS : (Caps(i) /\ SV(i)[6] = 0) => PortW(i) = R.big.port[i][p]) \/ Fail("C13", "OvlClearMeansExact")
 BigHasNoOverflow == (Ok /\ R.has.big => \A i \in 1..NS : Caps(i) => ~Overflowed(R.big.port[i][p]))
